@@ -56,6 +56,8 @@ def main():
                     "lines": lines[:4]})
         print(name, verdict, by, [o["obligation"] for o in obs][:3], flush=True)
     shutil.rmtree(os.path.join(VERIF, "replays"), ignore_errors=True)
+    # the evidence files now describe runs on seeded trees: put back the committed ones (runs on the unchanged tree)
+    sh(["git", "-C", VERIF, "checkout", "--", "evidence"])
     if only:
         # merge into the existing table
         try:
